@@ -5,6 +5,7 @@ use cas_object::{CasObject, CompressionScheme};
 use merkledb::aggregate_hashes::{cas_node_hash, file_node_hash};
 use merklehash::{compute_data_hash, HashedWrite, MerkleHash};
 use xvcommon::refs::{self, H};
+use xvcommon::rng::{gen_data, DataClass};
 use xvcommon::{case_iter, hexb, json, witness_base, Args, Report, Rng};
 
 const P: &str = "C06";
@@ -270,6 +271,41 @@ pub fn run(args: &Args, rep: &mut Report) {
                 Ok(m2) if m2 == m => {},
                 _ => rep.violation(P, "hash-b64-roundtrip", "from_base64(base64(h)) != h", w("b64")),
             }
+            // the other direction: a 64-byte text that is accepted must be the text form of the hash it parses to
+            // (one text per hash, up to letter case); near-miss texts: one position replaced by a sign, blank,
+            // non-hex letter, upper-case digit or a 2-byte character (length kept at 64 bytes)
+            {
+                let mut t: Vec<char> = hexs.chars().collect();
+                let anyp = rng.usize_below(64);
+                let pos = *rng.pick(&[0usize, 15, 16, 31, 32, 47, 48, 63, anyp]);
+                match rng.below(7) {
+                    0 => t[pos] = '+',
+                    1 => t[pos] = '-',
+                    2 => t[pos] = ' ',
+                    3 => t[pos] = 'g',
+                    4 => t[pos] = t[pos].to_ascii_uppercase(),
+                    5 => {
+                        // 2-byte character replacing two hex digits, straddling or not a 16-digit word boundary
+                        let p2 = pos.min(62);
+                        t[p2] = 'é';
+                        t.remove(p2 + 1);
+                    },
+                    _ => {
+                        t.truncate(rng.usize_below(64));
+                    },
+                }
+                let text: String = t.into_iter().collect();
+                match xvcommon::catch(|| MerkleHash::from_hex(&text)) {
+                    Err(p) => rep.violation(P, "hash-hex-parse-panic", &format!("from_hex panics on a malformed text: {}", p.lines().next().unwrap_or("")), w(&text)),
+                    Ok(Ok(m2)) => {
+                        if m2.hex() != text.to_ascii_lowercase() {
+                            rep.violation(P, "hash-hex-text-not-unique", "from_hex accepts a text that is not the hex form of the hash it returns", w(&format!("{text:?} -> {}", m2.hex())));
+                        }
+                        rep.count(P, "near_miss_hex_texts_accepted", 1);
+                    },
+                    Ok(Err(_)) => rep.count(P, "near_miss_hex_texts_rejected", 1),
+                }
+            }
             let mut key = [0u8; 32];
             rng.fill(&mut key);
             if hb(&m.hmac(mh(&key))) != refs::hmac(h, &key) {
@@ -345,19 +381,25 @@ pub fn run(args: &Args, rep: &mut Report) {
             let mut data = Vec::new();
             let mut cb: Vec<(MerkleHash, u32)> = Vec::new();
             let mut hl: Vec<(MerkleHash, usize)> = Vec::new();
+            // compressible and incompressible chunks, so that stored and unpacked lengths differ
+            let dclass = *rng.pick(&[DataClass::Random, DataClass::Text, DataClass::Zeros, DataClass::F32, DataClass::LowEntropy, DataClass::DoubledRecords]);
+            let mixed = rng.chance(1, 2);
             for _ in 0..n {
                 let l = rng.urange(1, 600);
-                let c = rng.bytes(l);
+                let c = if mixed && rng.chance(1, 2) { rng.bytes(l) } else { gen_data(&mut rng, dclass, l) };
                 let h = compute_data_hash(&c);
                 data.extend_from_slice(&c);
                 cb.push((h, data.len() as u32));
                 hl.push((h, l));
             }
             let xh = cas_node_hash(&hl);
-            let scheme = *rng.pick(&[Some(CompressionScheme::None), Some(CompressionScheme::LZ4), None]);
+            let scheme = *rng.pick(&[Some(CompressionScheme::None), Some(CompressionScheme::LZ4), Some(CompressionScheme::ByteGrouping4LZ4), None]);
             let mut cur = Cursor::new(Vec::new());
             if CasObject::serialize(&mut cur, &xh, &data, &cb, scheme).is_ok() {
                 let buf = cur.into_inner();
+                if buf.len() < data.len() {
+                    rep.count(P, "validator_agreements_on_compressed_xorbs", 1);
+                }
                 let ok_sync = matches!(CasObject::validate_cas_object(&mut Cursor::new(&buf), &xh), Ok(Some(_)));
                 let rt = tokio::runtime::Builder::new_current_thread().build().unwrap();
                 let ok_async = rt.block_on(async {
